@@ -103,6 +103,11 @@ def run(c, binary, labels, tier, focus="c06"):
     except Exception as e:                                      # documentation only
         c.cov["cow_pinned_model_replay"] = "not run: %s" % e
     c.cov["locked_summary"] = summary
+    c.cov["locked_rule"] = RULE
+    for a in ASSUMPTIONS:
+        if a not in c.assumptions:
+            c.assumptions.append(a)
+    c.cov.setdefault("trusted_base_parts", []).extend(t for t in TRUSTED if t not in c.cov.get("trusted_base_parts", []))
     return summary
 
 
